@@ -380,6 +380,15 @@ def check_dispatch(lang, mod, rep, R):
             bad.append('iterates %s' % show(it)[:80])
             continue
         is_call = elt[0] == 'call' and elt[1][0] == 'elem' and elt[1][1] == it
+        if is_call:
+            # what the combinators are applied to: the two inputs themselves (ja) / the inputs with only `nb` erased (en)
+            px, py = [a.arg for a in fn.args.args][:2]
+            if lang == 'en':
+                want_args = tuple(('call', A(N(v), 'clear_features'), (C('nb'),), ()) for v in (px, py))
+            else:
+                want_args = (N(px), N(py))
+            if elt[2] != want_args or elt[3]:
+                bad.append('applies the combinators to (%s) instead of (%s)' % (', '.join(show(a)[:50] for a in elt[2]), ', '.join(show(a) for a in want_args)))
         keep = [logic.formula(c) for c in filt]
         want = logic.neg(('atom', ('isnone', elt)))
         if is_call and keep == [want]:
